@@ -22,6 +22,8 @@ def main():
     warnings.filterwarnings("ignore")
     from harness import cov
     cov.start()
+    from harness.common import install_flag_variation
+    install_flag_variation()
     mod = importlib.import_module("harness." + sys.argv[1])
     fn = getattr(mod, sys.argv[2])
     from harness.common import _json_default
